@@ -2,6 +2,7 @@
    association store, calling the library models (reader, validation, writer). Sequential semantics;
    the concurrent view is in Theory/ServerFacts.v. *)
 From Wire Require Import Base.Bytes Model.GoV Model.Codec Model.Message Model.Writer Model.Reader.
+From WireGen Require Handlers.
 
 Definition store := list (bytes * message).      (* file id -> stored message; keys unique *)
 
@@ -78,21 +79,21 @@ Fixpoint dec_digits (fuel n : nat) (acc : bytes) : bytes :=
 (* generated ids are symbolic: "$k" = the k-th successful create of the history *)
 Definition fresh_id (n : nat) : bytes := x24 :: dec_digits (S n) n [].
 
-(* one request, start to finish *)
-Definition step (st : sstate) (o : op) : sstate * resp :=
+(* one request, start to finish; fid = the identifier base.ID() hands out if the request needs one *)
+Definition step_with (fid : bytes) (st : sstate) (o : op) : sstate * resp :=
   let s := ss_store st in
   match o with
   | OCreateText skip allow body =>
       match read_model None (query_opts skip allow) [body] FEOF with
       | ROk m =>
-          let id := fresh_id (length (ss_created st)) in
+          let id := fid in
           ({| ss_store := st_put s id m; ss_created := ss_created st ++ [id]; ss_fresh := S (ss_fresh st) |}, RCreated id)
       | RErrors _ => (st, RBad)
       end
   | OCreateMsg id m =>
       match verify m with
       | Accept =>
-          let '(id', fr) := match id with [] => (fresh_id (length (ss_created st)), S (ss_fresh st)) | _ => (id, ss_fresh st) end in
+          let '(id', fr) := match id with [] => (fid, S (ss_fresh st)) | _ => (id, ss_fresh st) end in
           ({| ss_store := st_put s id' m; ss_created := ss_created st ++ [id']; ss_fresh := fr |}, RCreated id')
       | _ => (st, RBad)
       end
@@ -130,10 +131,118 @@ Definition step (st : sstate) (o : op) : sstate * resp :=
       ({| ss_store := st_del s id; ss_created := ss_created st; ss_fresh := ss_fresh st |}, ROkPlain)
   end.
 
+Definition step (st : sstate) (o : op) : sstate * resp := step_with (fresh_id (length (ss_created st))) st o.
+
 Definition init : sstate := {| ss_store := []; ss_created := []; ss_fresh := 0 |}.
 
 Fixpoint run_ops (st : sstate) (ops : list op) : list resp :=
   match ops with
   | [] => []
   | o :: r => let '(st', a) := step st o in a :: run_ops st' r
+  end.
+
+(* ---- concurrent requests: each request is a thread; the repository steps (each under the
+        repository mutex, so atomic) of different threads interleave. A handler's response is
+        determined at its last repository step. Handlers make the repository calls listed in
+        WireGen.Handlers.handler_repo_calls: one call each, except add-message (getFile then
+        saveFile) - unless the source makes it a single call (add_is_atomic). ---- *)
+Definition add_is_atomic : bool :=
+  match find (fun p => String.eqb (fst p) "addFEDWireMessageToFile") Handlers.handler_repo_calls with
+  | Some (_, [_]) => true
+  | _ => false
+  end.
+
+Inductive thread :=
+| TReady (o : op)                       (* has not touched the repository yet *)
+| TAddSave (id : bytes) (m : message)   (* add-message: getFile found the file and the new message validated; saveFile pending *)
+| TDone (r : resp).
+
+(* requests that answer without any repository call *)
+Definition zero_step (o : op) : option resp :=
+  match o with
+  | OBadJSON => Some RBad
+  | OCreateText skip allow body =>
+      match read_model None (query_opts skip allow) [body] FEOF with ROk _ => None | RErrors _ => Some RBad end
+  | OCreateMsg _ m => match verify m with Accept => None | _ => Some RBad end
+  | _ => None
+  end.
+
+Definition start_thread (o : op) : thread :=
+  match zero_step o with Some r => TDone r | None => TReady o end.
+
+(* thread i performs its next repository step *)
+Definition grant (fid : bytes) (st : sstate) (t : thread) : sstate * thread :=
+  match t with
+  | TDone r => (st, TDone r)
+  | TAddSave id m =>
+      ({| ss_store := st_put (ss_store st) id m; ss_created := ss_created st; ss_fresh := ss_fresh st |}, TDone (ROkFile id m))
+  | TReady (OAdd id m) =>
+      if add_is_atomic then let '(st', r) := step_with fid st (OAdd id m) in (st', TDone r)
+      else match st_get (ss_store st) id with
+           | None => (st, TDone RNotFound)
+           | Some _ => match verify m with Accept => (st, TAddSave id m) | _ => (st, TDone RBad) end
+           end
+  | TReady o => let '(st', r) := step_with fid st o in (st', TDone r)
+  end.
+
+Fixpoint set_nth {A} (i : nat) (x : A) (l : list A) : list A :=
+  match i, l with
+  | O, _ :: t => x :: t
+  | S i', y :: t => y :: set_nth i' x t
+  | _, [] => []
+  end.
+
+(* identifier handed to thread i if it creates a file *)
+Definition thread_fid (i : nat) : bytes := x24 :: x63 :: dec_digits (S i) i [].
+
+Fixpoint sched_run (order : list nat) (st : sstate) (ts : list thread) : sstate * list thread :=
+  match order with
+  | [] => (st, ts)
+  | i :: r =>
+      match nth_error ts i with
+      | None => sched_run r st ts
+      | Some t => let '(st', t') := grant (thread_fid i) st t in sched_run r st' (set_nth i t' ts)
+      end
+  end.
+
+(* an order that lets every thread finish: everybody twice, lowest index first *)
+Definition drain (n : nat) : list nat := seq 0 n ++ seq 0 n.
+
+Definition run_concurrent (st : sstate) (ops : list op) (order : list nat) : sstate * list thread :=
+  sched_run (order ++ drain (length ops)) st (map start_thread ops).
+
+(* the same requests one at a time, in the order given by a list of thread indices *)
+Fixpoint run_sequential (idx : list nat) (ops : list op) (st : sstate) (rs : list (nat * resp)) : sstate * list (nat * resp) :=
+  match idx with
+  | [] => (st, rev rs)
+  | i :: r =>
+      match nth_error ops i with
+      | None => run_sequential r ops st rs
+      | Some o => let '(st', a) := step_with (thread_fid i) st o in run_sequential r ops st' ((i, a) :: rs)
+      end
+  end.
+
+(* ---- statuses and logging context ---- *)
+Definition status_of (r : resp) : nat :=
+  match r with
+  | RCreated _ => 201
+  | ROkFile _ _ | ROkList _ | ROkBody _ | ROkPlain => 200
+  | RBad => 400
+  | RNotFound => 404
+  end.
+
+(* identifiers a request contributes to its logging context *)
+Record req_ids := { rq_request_id : option bytes; rq_file_id : option bytes }.
+Definition ids_of (r : req_ids) : list bytes :=
+  (match rq_request_id r with Some x => [x] | None => [] end) ++ (match rq_file_id r with Some x => [x] | None => [] end).
+
+(* the handler closure assigns a logger captured from route registration (shared by every request of the
+   route) exactly when the translator finds such an assignment *)
+Definition logger_shared : bool := match Handlers.captured_assignments with [] => false | _ => true end.
+
+(* logging context of each request of a route, requests served one after the other *)
+Fixpoint log_contexts (shared : bool) (base : list bytes) (rs : list req_ids) : list (list bytes) :=
+  match rs with
+  | [] => []
+  | r :: t => let ctx := base ++ ids_of r in ctx :: log_contexts shared (if shared then ctx else base) t
   end.
